@@ -69,6 +69,39 @@ class RealAPI:
     def colname(col):
         return col.name
 
+    @staticmethod
+    def transfer_col_references(table, ref_source):
+        return pdt.transfer_col_references(table, ref_source)
+
+    @staticmethod
+    def collect(tbl, **kw):
+        """the real collect().  While artefacts are being built (SYMBOLIC_BUILD) the
+        natively materialised frame is swapped for a uniquely tagged dummy frame and the
+        artefact of the input pipeline is registered under its scan key, so that the plan
+        of later verbs can be interpreted over the symbolic result of the first stage."""
+        new = tbl >> X.collect(**kw)
+        if SYMBOLIC_BUILD[0]:
+            sql = tbl >> X.build_query()
+            stage = ("sql", sql) if sql is not None else ("plan", plan_json(tbl))
+            # static column types of the collected pipeline (an empty dummy result of a
+            # SQL query would otherwise be imported as null-typed columns)
+            from pydiverse.transform._internal.tree import types as _types
+
+            static = {c.name: _types.without_const(c.dtype()) for c in tbl}
+            names = list(new._ast.df.collect_schema().names())
+            schema = {n: static[n].to_polars() for n in names}
+            tagged = pl.DataFrame({c: [None] * (20 + len(COLLECTED)) for c in names}, schema=schema)
+            new._ast.df = tagged.lazy()
+            for n in names:
+                new._ast.cols[n]._dtype = static[n]
+                if new._ast.cols[n]._uuid in new._cache.cols:
+                    new._cache.cols[new._ast.cols[n]._uuid]._dtype = static[n]
+            COLLECTED.append((scan_key(tagged), stage, names))
+        return new
+
+
+SYMBOLIC_BUILD = [False]
+COLLECTED = []
 
 PL_TY = {INT: pl.Int64, BOOL: pl.Boolean, STR: pl.String, REAL: pl.Float64}
 SQA_TY = {INT: sqa.BigInteger, BOOL: sqa.Boolean, STR: sqa.String, REAL: sqa.Double}
